@@ -39,6 +39,7 @@ type Prog struct {
 	astFiles map[*token.File]*ast.File
 	exprCache map[token.Pos]string
 	extraOverlay map[string][]byte
+	bigConsts    map[string]string
 }
 
 func repoDir() string {
@@ -150,6 +151,15 @@ func LoadProg(pkgDirs []string, extraOverlay map[string][]byte) (*Prog, error) {
 				p.noEffect = append(p.noEffect, dr.Arg)
 			case "pure-observer":
 				p.pureObs = append(p.pureObs, dr.Arg)
+			case "bigconst":
+				// directive bigconst <var> <value>: package-level *big.Int holding a constant
+				fs := strings.Fields(dr.Arg)
+				if len(fs) == 2 {
+					if p.bigConsts == nil {
+						p.bigConsts = map[string]string{}
+					}
+					p.bigConsts[path+"."+fs[0]] = fs[1]
+				}
 			}
 		}
 	}
